@@ -1,7 +1,9 @@
 SPECIFICATION MCSpec
 CONSTANTS
   NC = 3
+  NF = 1
   WinC = 2
+  StrictForward = TRUE
   StopAtGenesis = TRUE
   MaxFaults = 2
 INVARIANTS SavedAreTrueAncestorsContiguous CompleteWhenDone
